@@ -393,7 +393,7 @@ func (e *explorer) descend(w *world.World, m any, path []int, forced []int, d, v
 			return
 		}
 	}
-	if len(path) <= len(forced) {
+	if len(path) < len(forced) {
 		expand = true // forced prefix levels are shared between work items
 	}
 	if !expand || (d == 0 && v == 0) {
